@@ -72,7 +72,7 @@ def random_cases(ctx, ntraj, nrestart):
         metric = "l1" if (f == 1 and v[1] == "linf") else v[1]
         out.append({"kind": "traj", "inp": {"ft": v[0], "metric": metric, "form": v[2], "f": f, "pts": pts, "c0": c0,
                                             "qs": queries(f, g) if f == 1 else queries(f, g)[::3],
-                                            "ms": [1, 2],
+                                            "ms": [1, 2], "nruns": r.choice([1, 2, 3]),
                                             "tol": r.choice([[1, 1000000000], [1, 1000000000], [1, 2], [3, 2]]) if metric == "l2" else [1, 1000000000]}})
     for _ in range(nrestart):
         f = r.choice([1, 2, 2])
@@ -90,7 +90,8 @@ def random_cases(ctx, ntraj, nrestart):
         init = r.choice(["random", "kmpp", "kmpara"])
         out.append({"kind": "restart", "inp": {"ft": v[0], "metric": metric, "f": f, "pts": pts, "k": k, "init": init,
                                                "seed": r.randint(1, 1000), "runs": 1 if init == "kmpara" else r.randint(2, 4),
-                                               "maxit": r.choice([1, 2, 3, 300, 300]), "qs": queries(f, g)[::3],
+                                               "maxits": r.choice([[1, 2, 3], [1, 2, 3], [2, 3, 4], [1, 3], [300]]),
+                                               "qs": queries(f, g)[::3],
                                                "tol": [1, 1000000]}})
     return out
 
